@@ -433,6 +433,7 @@ def decoder_new(I, args, kwargs, node):
 
 @extern_method('hpack.hpack.Encoder', 'encode')
 def encoder_encode(I, ref, o, args, kwargs, node):
+    I.g_nencode = I.g_nencode + 1
     from . import hdrmodel
     if hdrmodel.is_hdr(I, args[0]):
         def partial(k):
